@@ -700,9 +700,12 @@ def check_validity_and_decoding(ad, nbv, anc, rec):
         forms = [
             ("list", False, list(bits)), ("tuple", False, tuple(bits)), ("dict", False, dict(enumerate(bits))),
             ("list", True, list(spins)), ("tuple", True, tuple(spins)), ("dict", True, dict(enumerate(spins))),
+            # a dict is a mapping: its insertion order must not matter
+            ("dict_reversed", False, dict(reversed(list(enumerate(bits))))),
+            ("dict_reversed", True, dict(reversed(list(enumerate(spins))))),
         ]
         if not all_forms:
-            forms = [forms[x % 3], forms[3 + (x // 3) % 3]]
+            forms = [forms[x % 3], forms[3 + (x // 3) % 3], forms[6 + x % 2]]
         for fname, spin, sol in forms:
             d2 = lib(P.convert_solution, sol, spin=spin, what="convert_solution")
             ad.structure(d2, bits, spin)
@@ -713,6 +716,18 @@ def check_validity_and_decoding(ad, nbv, anc, rec):
             if bool(v) != f:
                 ad.bad("is_solution_valid/raw_%s_%s" % (fname, "spin" if spin else "bool"),
                        "is_solution_valid(%r, spin=%r) = %r, independent predicate on %r says %r" % (sol, spin, v, d, f))
+            # the spin flag is documented to matter only for all-ones solutions; when the vector contains
+            # a 0 (boolean) or a -1 (spin) the form is unambiguous and the flag may be omitted
+            vals_ = list(sol.values()) if isinstance(sol, dict) else list(sol)
+            if any(t == (-1 if spin else 0) for t in vals_):
+                d3 = lib(P.convert_solution, sol, what="convert_solution(no flag)")
+                if ad.canon(d3) != c:
+                    ad.bad("decode_noflag_differs/%s" % ("spin" if spin else "bool"),
+                           "%s %r without the flag decodes to %r, with spin=%r to %r" % (fname, sol, d3, spin, d2))
+                v3 = lib(P.is_solution_valid, sol, what="is_solution_valid(raw, no flag)")
+                if bool(v3) != f:
+                    ad.bad("is_solution_valid_noflag/raw_%s_%s" % (fname, "spin" if spin else "bool"),
+                           "is_solution_valid(%r) without the flag = %r, independent predicate on %r says %r" % (sol, v3, d, f))
     return best
 
 
